@@ -281,7 +281,7 @@ def t_identify(rec, seed, tier):
 def t_context(rec, seed, tier):
     from hypothesis import strategies as st
 
-    n = {"quick": 200, "thorough": 3000}[tier]
+    n = {"quick": 500, "thorough": 3000}[tier]
     pairs = [p for p in PAIRS if not p.startswith("bcrypt") or table.available("bcrypt")]
     cases = st.fixed_dictionaries({"schemes": st.lists(st.sampled_from(pairs), min_size=1, max_size=4), "secret": st.sampled_from(["pw", "pässword", "", "x" * 60])})
 
